@@ -39,11 +39,24 @@ def vkey(o):
     return '%s|%s' % (o['rule'], o['key'])
 
 
+def engine_selfcheck(R, prop):
+    """Positive/negative examples for the primitives and generic detectors (fixtures/engine_fixture)."""
+    import selfcheck
+    try:
+        problems, n = selfcheck.run()
+    except SystemExit as e:
+        problems, n = ['the fixture crate could not be analysed: %s' % e], 0
+    R.ob('SELFCHECK', 'engine-fixture', not problems, 'the analysis primitives and generic detectors report exactly the planted examples (%d fixture bodies)' % n if not problems
+         else 'CHECKER-BLIND: ' + '; '.join(problems), 'fixtures/engine_fixture/src/lib.rs', props=(prop,), status=None if not problems else 'CHECKER-BLIND')
+    return {'fixture_bodies': n, 'problems': problems}
+
+
 def run_quick(prop, repo, seed):
     t0 = time.time()
     fd = extract.facts_dir(repo, 'all')
     F, roles, R = engine.run_all(fd)
-    return evaluate(prop, F, roles, R, 'quick', seed, t0, extra_cov={'configurations': ['workspace --all-features (lib targets)']})
+    sc = engine_selfcheck(R, prop)
+    return evaluate(prop, F, roles, R, 'quick', seed, t0, extra_cov={'configurations': ['workspace --all-features (lib targets)'], 'engine_selfcheck': sc})
 
 
 def evaluate(prop, F, roles, R, tier, seed, t0, extra_cov=None, extra_violations=None):
